@@ -29,14 +29,18 @@ Proof. exact C17_bounds_every_prefix. Qed.
 Print Assumptions C17_bounds_every_state.
 
 (* object level: the invariant behind it (exact block accounting, partition bound, well-formed
-   cached packets) is preserved by ObjectReceiver::push and attach_fdt *)
+   cached packets; since D47 also, under the hypothesis fec_out_ok E on the decoder oracle, what the block
+   decoders hold: HB, see C17_held_bytes_bounded_by_accounted) is preserved by ObjectReceiver::push and attach_fdt *)
 Theorem C17_object_push : forall E maxpkt maxblk smax p o c,
-  G maxpkt maxblk smax o -> pkt_ok maxpkt maxblk smax p = true -> G maxpkt maxblk smax (fst (or_push E p o c)).
+  G E maxpkt maxblk smax o -> pkt_ok maxpkt maxblk smax p = true -> G E maxpkt maxblk smax (fst (or_push E p o c)).
 Proof. exact or_push_G. Qed.
 Print Assumptions C17_object_push.
-Theorem C17_object_bounds : forall maxpkt maxblk smax o,
-  G maxpkt maxblk smax o -> P_C17_object maxpkt maxblk o = true.
+Theorem C17_object_bounds : forall E maxpkt maxblk smax o,
+  G E maxpkt maxblk smax o -> P_C17_object maxpkt maxblk o = true.
 Proof. exact G_bounds. Qed.
+Theorem C17_object_invariant_statement : forall E maxpkt maxblk smax o,
+  G E maxpkt maxblk smax o <-> cache_ok maxpkt o /\ W maxblk smax o /\ (fec_out_ok E -> HB maxblk o).
+Proof. intros. reflexivity. Qed.
 Print Assumptions C17_object_bounds.
 
 (* the hypotheses are needed (the former placeholder premise "True" is refuted by each of these):
@@ -286,17 +290,118 @@ Theorem C17_memory_bounded_by_configuration_partial : forall E parse_fdt cfg evs
   /\ lenN_ (rv_fdt_current r) <= 10.
 Proof. exact memory_bounded_partial. Qed.
 Print Assumptions C17_memory_bounded_by_configuration_partial.
-(* the full reading (bytes HELD, recv_ledger, bounded the same way) is FALSE of the model:
-   the No-Code block decoder keeps every symbol as received, whatever its length, while the
-   receiver accounts k * E bytes for the block *)
+(* D47.  The full reading (bytes HELD, recv_ledger, bounded the same way) was FALSE of the model before the repair
+   of D47: a block decoder kept every symbol as received, whatever its length, while the receiver accounts k * E
+   bytes for the block.  BlockDecoder::push now discards a symbol longer than E.  What is true now, for the objects in
+   flight, under C17_inputs_bounded and the hypothesis on the decoder ORACLE of the model
+     fec_out_ok E := forall toi f sbn k e size sh d, e_fec E toi f sbn k e size sh = Some d -> lenN_ d <= k * e
+   (a decoder returns at most k * E bytes: reed_solomon_erasure / raptorq k shards of E bytes, raptor_code the block
+   length it was created with; No-Code needs no oracle):
+   per block decoder of an object announced with [oti]:
+     ACCOUNTED  bd_size b <= NOMINAL block size bd_k b * E <= maxblk
+                (r_alloc_size is the sum of bd_size over the blocks of an object that is Receiving);
+     HELD       shard_bytes b <= (max_syms oti k + k) * E: at most max_syms stored symbols of at most E bytes and a
+                decoded block of at most k * E bytes, where max_syms is
+                  No-Code       k              (ESI < k, first copy wins)                       -> 2 * k * E
+                  Reed-Solomon  k + parity     (ESI < k + parity <= 256)                        -> (2k + parity) * E
+                  RaptorQ       2^24           (every new ESI of the 24-bit field is kept until the decoder answers)
+                  Raptor        2^16           (16-bit ESI; a short symbol is padded to ceil(block length / k) <= E);
+                a deallocated decoder holds nothing; in terms of maxblk: held_mult * maxblk with held_mult = 2 / 257 /
+                2^24 + 1 / 2^16 + 1;
+   an object has at most 4097 block decoders.
+   HELD is NOT a multiple of ACCOUNTED: the last block of an object is accounted with its length, which may be as
+   small as 1 byte, while its symbols may have E bytes each (C17_held_exceeds_accounted_short_block); the relation goes
+   through the nominal size k * E. *)
+Theorem C17_held_bytes_bounded_by_accounted : forall E parse_fdt cfg evs maxpkt maxblk,
+  C17_inputs_bounded parse_fdt evs maxpkt maxblk -> fec_out_ok E ->
+  let '(_, r, _) := recv_run E parse_fdt cfg recv0 evs ctx0 in
+  forall q, In q (rv_objects r) ->
+    let o := snd q in
+    (r_state o = Receiving -> r_alloc_size o = sumN' (map bd_size (r_blocks o)))
+    /\ match r_oti o with
+       | None => r_blocks o = []
+       | Some oti =>
+         (length (r_blocks o) <= 4097)%nat
+         /\ forall b, In b (r_blocks o) ->
+              bd_size b <= bd_k b * ro_e oti /\ bd_k b * ro_e oti <= maxblk
+              /\ shard_bytes b <= (max_syms oti (bd_k b) + bd_k b) * ro_e oti
+              /\ (bd_alloc b = false -> shard_bytes b = 0)
+              /\ shard_bytes b <= held_mult (ro_fec oti) * maxblk
+       end.
+Proof. exact held_bytes_bounded_by_accounted. Qed.
+Print Assumptions C17_held_bytes_bounded_by_accounted.
+
+Theorem C17_held_statements : forall oti k f,
+  max_syms oti k = match ro_fec oti with
+                   | FNoCode => k | FRS28 | FRS28US => k + ro_parity oti
+                   | FRaptorQ => 16777216 | FRaptor => 65536 | FRS2M => 0 end
+  /\ held_mult f = match f with FNoCode => 2 | FRS28 | FRS28US => 257 | FRaptorQ => 16777217 | FRaptor => 65537 | FRS2M => 1 end
+  /\ (forall o, obj_ledger o = cache_bytes o + blocks_held o)
+  /\ (forall o, blocks_held o = sumN' (map shard_bytes (r_blocks o)))
+  /\ (forall cfg maxpkt maxblk, per_object_held_bound cfg maxpkt maxblk = cf_max_cache cfg + maxpkt + 4097 * (16777217 * maxblk)).
+Proof. intros. repeat split; destruct (ro_fec oti); reflexivity. Qed.
+
+(* per object: the block decoders hold at most 4097 * (multiple of the object's scheme) * maxblk bytes *)
+Theorem C17_blocks_held_bounded : forall E parse_fdt cfg evs maxpkt maxblk,
+  C17_inputs_bounded parse_fdt evs maxpkt maxblk -> fec_out_ok E ->
+  let '(_, r, _) := recv_run E parse_fdt cfg recv0 evs ctx0 in
+  forall q, In q (rv_objects r) -> blocks_held (snd q) <= 4097 * (obj_held_mult (snd q) * maxblk).
+Proof. exact blocks_held_bounded. Qed.
+Print Assumptions C17_blocks_held_bounded.
+
+(* (G3) memory bounded by configuration, THE OBJECT PART of the ledger: the bytes HELD for the objects in flight
+   (cached datagrams + what their block decoders hold) are at most
+   (objects in flight) * (cache + maxpkt + 4097 * 16777217 * maxblk).  Not bounded by configuration: the number of
+   objects in flight and of FDT receivers (they follow the traffic: C17_objects_follow_traffic,
+   C17_fdt_receivers_follow_traffic) and the FDT part of the ledger (an FDT receiver obeys its own limit of 1 MiB,
+   not cf_max_cache, and TOI 0 is not constrained by C17_inputs_bounded: C17_fdt_part_not_bounded_by_configuration) *)
+Theorem C17_memory_bounded_by_configuration : forall E parse_fdt cfg evs maxpkt maxblk,
+  C17_inputs_bounded parse_fdt evs maxpkt maxblk -> fec_out_ok E ->
+  let '(_, r, _) := recv_run E parse_fdt cfg recv0 evs ctx0 in
+  sumN' (map (fun q => obj_ledger (snd q)) (rv_objects r)) <= lenN_ (rv_objects r) * per_object_held_bound cfg maxpkt maxblk
+  /\ lenN_ (rv_error r) <= cf_max_err cfg
+  /\ lenN_ (rv_fdt_current r) <= 10.
+Proof. exact memory_bounded_by_configuration. Qed.
+Print Assumptions C17_memory_bounded_by_configuration.
+
+(* the scenario that refuted the full reading before D47 (63 datagrams of 1424 bytes carrying 1400-byte "symbols" for
+   an object announced with E = 1, 64 bytes accounted): the 63 symbols are now discarded, the block is left empty *)
+Example C17_long_symbols_now_discarded :
+  P_C17_bounds (c17_ex_cfg 64) 1500 64 c17_long_symbol_final = true
+  /\ recv_accounted c17_long_symbol_final = 64 /\ recv_ledger c17_long_symbol_final = 0
+  /\ map (fun q => map (fun b => (bd_alloc b, bd_size b, length (bd_shards b))) (r_blocks (snd q))) (rv_objects c17_long_symbol_final)
+     = [[(true, 64, 0%nat)]]
+  /\ (recv_ledger c17_long_symbol_final <=? 11 * per_object_bound (c17_ex_cfg 64) 1500 64) = true.
+Proof. vm_compute. repeat split. Qed.
+
+(* HELD is not a multiple of ACCOUNTED: a 1-byte No-Code object announced with E = 1000 (one block of k = 1 symbol,
+   accounted with its length 1): a 1000-byte symbol is kept (it is not longer than E) and, without FDT, the decoded
+   block stays in memory too: 2000 bytes held = 2 * k * E, 1 byte accounted *)
+Example C17_held_exceeds_accounted_short_block :
+  let r := snd (fst (recv_run c17_ex_env c17_ex_nofdt (c17_ex_cfg 64) recv0
+                       [RvPush (mk_apkt 5 false false None (Some (mk_roti FNoCode 1000 64 0 None, 1)) None None 0
+                                        [0; 0; 0; 0] (repeat 7 1000) 1024) 0%Z] ctx0)) in
+  recv_accounted r = 1 /\ recv_ledger r = 2000
+  /\ map (fun q => map (fun b => (bd_size b, bd_k b, shard_bytes b)) (r_blocks (snd q))) (rv_objects r) = [[(1, 1, 2000)]].
+Proof. vm_compute. repeat split. Qed.
+
+(* what remains unbounded by the configuration: the full ledger, by its FDT part (memory_bounded_full: recv_ledger <=
+   (objects + FDT receivers + 10) * (2 * cache + maxpkt + 2 * maxblk) for bounded inputs and a bounded decoder).  One
+   half-received FDT instance announced with E = 1400, 15 of its 20 symbols: 21000 bytes held by an FDT receiver whose
+   only limit is its own 1 MiB, against 11 * 1756 *)
 Definition C17_memory_bounded_by_configuration_full : Prop := memory_bounded_full.
-Theorem C17_memory_bounded_by_configuration_refuted : ~ C17_memory_bounded_by_configuration_full.
+Theorem C17_fdt_part_not_bounded_by_configuration : ~ C17_memory_bounded_by_configuration_full.
 Proof. exact memory_bounded_full_refuted. Qed.
-Print Assumptions C17_memory_bounded_by_configuration_refuted.
-Example C17_long_symbols_refuted :
-  (P_C17_bounds (c17_ex_cfg 64) 1500 64 c17_long_symbol_final
-   && (recv_ledger c17_long_symbol_final <=? 11 * per_object_bound (c17_ex_cfg 64) 1500 64)) = false
-  /\ recv_accounted c17_long_symbol_final = 64 /\ recv_ledger c17_long_symbol_final = 88200.
+Print Assumptions C17_fdt_part_not_bounded_by_configuration.
+Example C17_fdt_receiver_own_limit :
+  let r := snd (fst (recv_run c17_ex_env c17_ex_nofdt (c17_ex_cfg 64) recv0 c17_big_fdt_evs ctx0)) in
+  lenN_ (rv_objects r) = 0 /\ lenN_ (rv_fdt_receivers r) = 1 /\ recv_ledger r = 21000
+  /\ 11 * per_object_bound (c17_ex_cfg 64) 1500 64 = 19316.
+Proof. vm_compute. repeat split. Qed.
+(* the number of FDT receivers follows the traffic: 30 half-received instances with distinct ids, 30 receivers *)
+Example C17_fdt_receivers_follow_traffic :
+  let r := snd (fst (recv_run c17_ex_env c17_ex_nofdt (c17_ex_cfg 64) recv0 (c17_many_fdt 30) ctx0)) in
+  lenN_ (rv_fdt_receivers r) = 30 /\ lenN_ (rv_objects r) = 0 /\ recv_ledger r = 120.
 Proof. vm_compute. repeat split. Qed.
 
 (* ---- non-vacuity ---- *)
